@@ -332,6 +332,10 @@ def gen_nn(rng, op, malformed=False):
     if op in ('tanh', 'sigmoid'):
         return [L(rshape(rng))], []
     if op in ('softmax', 'log_softmax'):
+        if rng.chance(.3 if malformed else .2):
+            # 0-d operand: the kernels reduce with `a.max(axis, keepdims=True)` / `.sum(axis, keepdims=True)`, and NumPy's reductions accept
+            # the int axes 0 and -1 on a 0-d array (nothing is reduced: value 1 / 0, gradient 0); every other dim raises
+            return [L(())], [rng.pick([1, -2, 2]) if malformed else rng.pick([0, -1])]
         s = rshape(rng, 1, 4)
         d = rng.randrange(-len(s), len(s))
         if malformed: d = len(s)
